@@ -45,6 +45,16 @@ func (h *Cache) Push(data []byte, epoch, messageSequence uint16, typ handshake.T
 	h.mu.Lock()
 	defer h.mu.Unlock()
 
+	for _, item := range h.cache {
+		// A retransmitted flight pushes the very same message again. Keeping
+		// every copy lets a peer that repeats its final flight grow the cache
+		// without bound.
+		if item.MessageSequence == messageSequence && item.Epoch == epoch && item.Typ == typ &&
+			item.IsClient == isClient && bytes.Equal(item.Data, data) {
+			return
+		}
+	}
+
 	h.cache = append(h.cache, &HandshakeCacheItem{
 		Data:            bytes.Clone(data),
 		Epoch:           epoch,
